@@ -19,11 +19,23 @@ Call(f, a) == [t |-> "call", fn |-> f, a |-> a]
 Pair(c, v) == [t |-> "pair", c |-> c, v |-> v]
 S1(x) == Str(<<x>>)
 
+\* R1: unsorted, asymmetric arrays (an in-place reorder is visible), a list of lists, objects of equal size with different
+\* key sets and null members, strings that name members (sel, keys: data-dependent paths)
 R1 == Obj([src |-> Obj([a |-> IntV(1), b |-> Arr(<<IntV(3), IntV(1), IntV(2)>>), c |-> Obj([d |-> S1(120), e |-> IntV(2)]),
                         s |-> Str(<<97, 98>>), f |-> Flt(3, 1), t |-> Bool(TRUE), n |-> Null,
-                        l |-> Arr(<<Obj([k |-> IntV(2), v |-> S1(112)]), Obj([k |-> IntV(1), v |-> S1(113)])>>)])])
+                        l |-> Arr(<<Obj([k |-> IntV(2), v |-> S1(112)]), Obj([k |-> IntV(1), v |-> S1(113)])>>),
+                        ll |-> Arr(<<Arr(<<IntV(3), IntV(1), IntV(2)>>), Arr(<<IntV(2), IntV(1)>>)>>),
+                        sel |-> S1(97), keys |-> Arr(<<S1(97), S1(102), S1(97)>>), o |-> Obj([a |-> IntV(1), c |-> Null])])])
 R2 == Obj([src |-> Arr(<<IntV(1), S1(97), Arr(<<IntV(2)>>)>>), asm |-> Obj([x |-> IntV(1)])])
 R3 == Obj([src |-> Obj([k |-> IntV(5), x |-> IntV(7)])])
+\* the second root of every case (same shape, other values): the SAME Plan object is executed on it after the first root
+R1b == Obj([src |-> Obj([a |-> IntV(5), b |-> Arr(<<IntV(9), IntV(7), IntV(8)>>), c |-> Obj([d |-> S1(121), e |-> IntV(4)]),
+                         s |-> Str(<<99, 100>>), f |-> Flt(5, 1), t |-> Bool(FALSE), n |-> Null,
+                         l |-> Arr(<<Obj([k |-> IntV(1), v |-> S1(113)]), Obj([k |-> IntV(3), v |-> S1(114)])>>),
+                         ll |-> Arr(<<Arr(<<IntV(2), IntV(9), IntV(4)>>), Arr(<<IntV(1), IntV(0)>>)>>),
+                         sel |-> S1(102), keys |-> Arr(<<S1(102), S1(97)>>), o |-> Obj([a |-> IntV(1), c |-> IntV(2)])])])
+R2b == Obj([src |-> Arr(<<IntV(4), S1(98), Arr(<<IntV(6), IntV(5)>>)>>), asm |-> Obj([x |-> IntV(2)])])
+R3b == Obj([src |-> Obj([k |-> IntV(6), x |-> IntV(1)])])
 
 Asm == P(FALSE, <<C("asm")>>)
 Wrapped(x) == Call("set", <<Asm, x>>)
@@ -48,11 +60,11 @@ Matrix3 == {Call(f, t) : f \in Fns, t \in Tuples(Reps(Kinds5), 3)}
 Matrix4 == {Call(f, t) : f \in Fns, t \in Tuples(Reps(Kinds3), 4)}
 
 \* ------------------------------------------------------------------ value matrix for the specified functions
-AtomsQ == {Null, Bool(TRUE), Bool(FALSE), IntV(0), IntV(3), Flt(3, 1), Flt(2, 0),
-           S1(97), Str(<<97, 98>>), Arr(<<IntV(3), IntV(1), IntV(2)>>), Obj([a |-> IntV(1)]),
+AtomsQ == {Null, Bool(TRUE), IntV(0), IntV(3), Flt(3, 1), Flt(2, 0),
+           Str(<<>>), Str(<<97, 98>>), Arr(<<>>), Arr(<<IntV(3), IntV(1), IntV(2)>>), Obj(<<>>), Obj([a |-> IntV(1)]),
            P(FALSE, <<C("src"), C("a")>>), P(FALSE, <<C("src"), C("s")>>), P(FALSE, <<C("src"), C("zz")>>),
            Call("sum", <<IntV(1), IntV(2)>>)}
-AtomsB == AtomsQ \cup {IntV(1), IntV(-1), Flt(1, 1), Flt(0, 0), Str(<<>>), S1(98), Arr(<<>>), P(FALSE, <<C("src"), C("f")>>),
+AtomsB == AtomsQ \cup {Bool(FALSE), S1(97), IntV(1), IntV(-1), Flt(1, 1), Flt(0, 0), Str(<<>>), S1(98), Arr(<<>>), P(FALSE, <<C("src"), C("f")>>),
            P(FALSE, <<C("src"), C("b")>>), Call("list", <<IntV(1), S1(97)>>), IntV(2), IntV(4), Flt(-3, 2), Flt(4, 0), Arr(<<S1(98), S1(97)>>), Arr(<<IntV(1), Flt(2, 0)>>),
            Arr(<<IntV(1), IntV(2)>>), Obj(<<>>), Obj([a |-> Flt(1, 0)]), Str(<<98, 97>>),
            P(FALSE, <<C("src"), C("b"), N(1)>>), P(FALSE, <<C("src"), C("b"), N(-1)>>), P(TRUE, <<C("src"), C("c")>>),
@@ -60,8 +72,8 @@ AtomsB == AtomsQ \cup {IntV(1), IntV(-1), Flt(1, 1), Flt(0, 0), Str(<<>>), S1(98
            P(FALSE, <<C("src"), C("t")>>), P(FALSE, <<C("src"), C("n")>>), P(TRUE, <<>>),
            Call("get", <<P(FALSE, <<C("src"), C("c")>>)>>), Call("quote", <<S1(97)>>), Call("not", <<IntV(1)>>)}
 Atoms == IF Big THEN AtomsB ELSE AtomsQ
-SpecFns == {f \in Fns : Canon(f) \in Specified}
-Values1 == {Call(f, <<a>>) : f \in Fns, a \in AtomsB}
+SpecFns == {f \in Fns : Canon(f) \in Specified /\ (Big \/ Canon(f) = f)}   \* quick: canonical names (aliases are in the kind matrix)
+Values1 == {Call(f, <<a>>) : f \in Fns, a \in Atoms}
 Values2 == {Call(f, <<a, b>>) : f \in SpecFns, a \in Atoms, b \in Atoms}
 Nums == {IntV(0), IntV(1), IntV(3), IntV(-1), Flt(1, 1), Flt(3, 1), Flt(2, 0), S1(97), S1(98), Null, Bool(TRUE),
          P(FALSE, <<C("src"), C("a")>>), Call("sum", <<IntV(1), IntV(2)>>)}
@@ -114,6 +126,37 @@ EachPlans == {Call("each", <<l, Call("set", <<P(TRUE, <<C("asm")>>), b>>)>>) : l
              \cup {Call("each", <<l, Call("set", <<P(TRUE, <<C("zz")>>), P(TRUE, <<C("src")>>)>>), S1(122)>>) : l \in Lists}
              \cup {Call("each", <<l, Call("set", <<P(TRUE, <<C("src"), C("k")>>), IntV(0)>>)>>) : l \in Lists}
 
+\* ------------------------------------------------------------------ references: a nested call that returns data living under
+\* $.src (get, getall, nth, cond, asm, each, list) as an argument of every function: a function that works in place on what
+\* it was handed changes $.src although it is documented to return a copy / a new value
+Refs == {Call("get", <<P(FALSE, <<C("src"), C("b")>>)>>), Call("get", <<P(TRUE, <<C("src"), C("l")>>)>>),
+         Call("nth", <<P(FALSE, <<C("src"), C("ll")>>), IntV(0)>>), Call("cond", <<Pair(Bool(TRUE), P(FALSE, <<C("src"), C("b")>>))>>),
+         Call("asm", <<P(FALSE, <<C("src"), C("ll"), N(1)>>)>>), Call("get", <<P(FALSE, <<C("src"), C("c")>>)>>)}
+         \cup (IF Big THEN {Call("nth", <<Call("getall", <<P(FALSE, <<C("src"), C("b")>>)>>), IntV(0)>>), Call("get", <<P(FALSE, <<C("keys")>>), P(FALSE, <<C("src")>>)>>)} ELSE {})
+RefExtra == {P(TRUE, <<>>), P(TRUE, <<C("k")>>), IntV(0)}
+RefPlans == {Call(f, <<r>>) : f \in Fns, r \in Refs} \cup {Call(f, <<r, x>>) : f \in Fns, r \in Refs, x \in RefExtra}
+            \cup {Call(f, <<x, r>>) : f \in Fns, r \in Refs, x \in {Arr(<<IntV(5)>>)}}
+
+\* ------------------------------------------------------------------ computed, data-dependent paths: a path argument produced by a
+\* nested call (root / at over strings read from the data), used by get/getall/set/setall and offered to every function,
+\* evaluated more than once: inside each and across the two roots of a case
+PathCalls == {Call("root", <<Str(<<115, 114, 99>>), P(FALSE, <<C("src"), C("sel")>>)>>), Call("at", <<Str(<<115, 114, 99>>), P(TRUE, <<C("src"), C("sel")>>)>>),
+              Call("root", <<Str(<<115, 114, 99>>), S1(97)>>), Call("root", <<Str(<<115, 114, 99>>), Call("nth", <<P(FALSE, <<C("src"), C("keys")>>), IntV(0)>>)>>)}
+ComputedPlans == {Call(f, <<pc>>) : f \in Fns, pc \in PathCalls}
+                 \cup {Call(f, <<pc, v>>) : f \in {"set", "setall", "get", "getall", "sort", "list", "equal"}, pc \in PathCalls, v \in {IntV(7), P(FALSE, <<>>), P(FALSE, <<C("src"), C("b")>>)}}
+                 \cup {Call("each", <<P(FALSE, <<C("src"), C("keys")>>), Call("set", <<P(TRUE, <<C("asm")>>), Call(f, <<Call("root", <<Str(<<115, 114, 99>>), P(TRUE, <<C("src")>>)>>)>>)>>)>>) : f \in {"get", "getall", "list", "size"}}
+                 \cup {Call("asm", <<Call("set", <<P(FALSE, <<C("asm"), C("x")>>), Call("get", <<pc>>)>>), Call("set", <<P(FALSE, <<C("src"), C("sel")>>), S1(102)>>),
+                                      Call("set", <<P(FALSE, <<C("asm"), C("y")>>), Call("get", <<pc>>)>>)>>) : pc \in PathCalls}
+
+\* ------------------------------------------------------------------ equality on containers: same-size objects with different key sets,
+\* null members, nested lists and objects
+ContAtoms == {Obj(<<>>), Obj([a |-> IntV(1), b |-> Null]), Obj([a |-> IntV(1), c |-> Null]), Obj([a |-> IntV(1), c |-> IntV(2)]), Obj([a |-> Null]), Obj([b |-> Null]),
+              Obj([a |-> Flt(1, 0), c |-> Null]), Obj([a |-> Arr(<<IntV(1)>>)]), Obj([a |-> Arr(<<Null>>)]), Obj([a |-> Obj([b |-> Null])]), Obj([a |-> Obj([c |-> Null])]),
+              Arr(<<>>), Arr(<<Null>>), Arr(<<IntV(1), Null>>), Arr(<<Null, IntV(1)>>), Arr(<<IntV(1), IntV(2)>>), Arr(<<Obj([a |-> Null])>>), Arr(<<Obj([b |-> Null])>>), Null,
+              P(FALSE, <<C("src"), C("o")>>), P(FALSE, <<C("src"), C("c")>>), P(FALSE, <<C("src"), C("ll"), N(1)>>)}
+EqPlans == {Call(f, <<a, b>>) : f \in (IF Big THEN {"equal", "==", "eq", "neq", "!="} ELSE {"equal", "neq"}), a \in ContAtoms, b \in ContAtoms}
+           \cup (IF Big THEN {Call("equal", <<a, a, b>>) : a \in ContAtoms, b \in ContAtoms} ELSE {})
+
 \* ------------------------------------------------------------------ families
 Both(ps, r) == {Case(Wrapped(p), r, FALSE) : p \in ps} \cup {Case(p, r, FALSE) : p \in ps}
 Cases ==
@@ -125,12 +168,15 @@ Cases ==
     [] Part = "values2" -> {Case(Wrapped(p), R1, FALSE) : p \in Values2}
     [] Part = "values3" -> {Case(Wrapped(p), R1, FALSE) : p \in Values3}
     [] Part = "mutate" -> {Case(p, r, FALSE) : p \in Mutating, r \in {R1, R2}} \cup {Case(p, R1, b) : p \in Seq2, b \in BOOLEAN}
+    [] Part = "refs" -> {Case(Wrapped(p), R1, FALSE) : p \in RefPlans}
+    [] Part = "computed" -> Both(ComputedPlans, R1)
+    [] Part = "eqcont" -> {Case(Wrapped(p), R1, FALSE) : p \in EqPlans}
     [] Part = "forms" -> Both(CondPlans \cup SortPlans \cup EachPlans, R1) \cup Both(SortPlans, R3)
     [] OTHER -> {}
 
 \* ------------------------------------------------------------------ random nested plans (tlc -simulate)
 RECURSIVE Gen(_)
-RandAtom(d) == RandomElement(AtomsB)      \* (a parameter, so that TLC does not cache one draw)
+RandAtom(d) == RandomElement(AtomsB \cup Refs \cup PathCalls \cup ContAtoms)      \* (a parameter, so that TLC does not cache one draw)
 Gen(d) ==
   IF d = 0 \/ RandomElement(1..4) = 1 THEN RandAtom(d)
   ELSE LET f == RandomElement(Fns)
@@ -153,7 +199,7 @@ GNext == UNCHANGED vars /\ (IF Part = "random" THEN c' = RandCase ELSE UNCHANGED
 Emit == PrintT(<<"PL", ToJson(c)>>)
 RootName(r) == CASE r = R1 -> "R1" [] r = R2 -> "R2" [] r = R3 -> "R3" [] OTHER -> "?"
 EmitShort == PrintT(<<"PL", ToJson([plan |-> c.plan, root |-> RootName(c.root), bare |-> c.bare])>>)
-Roots == [R1 |-> R1, R2 |-> R2, R3 |-> R3]
+Roots == [R1 |-> R1, R2 |-> R2, R3 |-> R3, R1b |-> R1b, R2b |-> R2b, R3b |-> R3b]
 ASSUME PrintT(<<"ROOTS", ToJson(Roots)>>)
 
 \* ------------------------------------------------------------------ design check of Asm over the generated universe
